@@ -26,6 +26,13 @@ def ops_trace(tier, ops, quick_n=100, thorough_n=6000):
     return trace("random-invocations-trace", ["ops", "-ops", ops, "-n", str(quick_n if tier == "quick" else thorough_n)], "Trace_Ops.tla", "Trace_Ops.cfg")
 
 
+def shape_pairs_trace(tier):
+    """Direction B at the level of shapes: every broadcast-compatible ordered pair of shapes of rank <= 4 over the extents (quick:
+    1,2,3,4,5,7,9 - about 146 000 pairs; thorough: 1..9 - about 410 000) through binary operators in one process, validated by TLC."""
+    return trace("all-shape-pairs-trace", ["shapes", "-extents", "1,2,3,4,5,7,9" if tier == "quick" else "1,2,3,4,5,6,7,8,9"],
+                 "Trace_Shapes.tla", "Trace_Shapes.cfg")
+
+
 # --------------------------------------------------------------------------------------------- stage runners
 def run_stage(ctx, st):
     res = dict(mc=run_mc, trace=run_trace, design=run_design)[st["kind"]](ctx, st)
@@ -289,6 +296,7 @@ PROPS["C14"] = dict(
         mc("bcast-exhaustive", "MC_C14.tla", "MC_C14_quick.cfg" if tier == "quick" else "MC_C14_thorough.cfg",
            min_cases=20000),
         ops_trace(tier, "MultidirectionalBroadcast,UnidirectionalBroadcast", 300, 4000),
+        shape_pairs_trace(tier),
     ],
 )
 
@@ -303,6 +311,7 @@ PROPS["C03"] = dict(
         mc("values", "MC_C03.tla", "MC_C03_values.cfg", min_cases=1000),
         mc("types", "MC_C03.tla", "MC_C03_types.cfg", min_cases=100),
         ops_trace(tier, "Add,Sub,Mul,Equal,Less,LessOrEqual,Greater,GreaterOrEqual,And,Or,Xor", 60, 800),
+        shape_pairs_trace(tier),
     ],
 )
 
